@@ -124,6 +124,7 @@ def run_task(name):
     out["assumed"] = sorted(models.ASSUMED_USED)
     from pyvc import engine as _engine
     out["locals"] = dict(_engine.LOCALS_SEEN)
+    out["shas"] = dict(_engine.SHA_SEEN)  # every function whose source this task read
     out["wall_s"] = round(time.time() - t0, 2)
     return out
 
@@ -165,6 +166,7 @@ def main():
                 "discharged": sorted(o["id"] for o in r["obligations"] if o["status"] == "discharged"),
                 "not_discharged": sorted(o["id"] + ":" + o["status"] for o in r["obligations"] if o["status"] != "discharged"),
                 "hints": r.get("hints", {}),
+                "shas": r.get("shas", {}),
             }
             print(f"{r['task']:45s} {r['status']:15s} {len(lock[r['task']]['discharged'])}/{len(r['obligations'])} {r['wall_s']}s {r.get('detail','')[:200]}")
         lock["__locals__"] = {}
@@ -178,6 +180,9 @@ def main():
     crash = None
     for r in results:
         lk = lock.get(r["task"], {})
+        # did the source of any function this task reads change since the lock was made?
+        code_changed = bool(lk.get("shas")) and lk.get("shas") != r.get("shas")
+        fully_proved_in_lock = bool(lk) and lk.get("status") == "ok" and not lk.get("not_discharged")
         assumed.update(r.get("assumed", []))
         f = r["function"] if isinstance(r["function"], dict) else {"function": r["task"]}
         f = dict(f)
@@ -190,7 +195,8 @@ def main():
             f["detail"] = r.get("detail", "")
             # every obligation that the lock recorded as discharged is now undecided
             for oid in lk.get("discharged", []) or [r["task"] + "/all"]:
-                obligations.append({"id": oid, "status": "unknown", "detail": f"{r['status']}: {r.get('detail','')}", "time": 0, "solver": None, "task": r["task"]})
+                obligations.append({"id": oid, "status": "unknown", "detail": f"{r['status']}: {r.get('detail','')}", "time": 0, "solver": None, "task": r["task"],
+                                    "was_discharged_in_lock": True, "code_changed": code_changed and fully_proved_in_lock})
         else:
             got = {o["id"]: o for o in r["obligations"]}
             # vacuity guard: far fewer obligations than when the lock was made means the contract no longer bites
@@ -204,11 +210,13 @@ def main():
             for o in r["obligations"]:
                 o["task"] = r["task"]
                 o["was_discharged_in_lock"] = o["id"] in lk.get("discharged", [])
+                o["code_changed"] = code_changed and fully_proved_in_lock
                 obligations.append(o)
                 if o["status"] == "discharged":
                     by_solver[o["solver"]] = by_solver.get(o["solver"], 0) + 1
             for oid in lost:
-                obligations.append({"id": oid, "status": "unknown", "detail": "obligation no longer generated (shape of the function changed)", "time": 0, "solver": None, "task": r["task"]})
+                obligations.append({"id": oid, "status": "unknown", "detail": "obligation no longer generated (shape of the function changed)", "time": 0, "solver": None, "task": r["task"],
+                                    "was_discharged_in_lock": True, "code_changed": code_changed and fully_proved_in_lock})
         functions.append(f)
     if crash:
         print(crash, file=sys.stderr)
